@@ -115,13 +115,18 @@ def _default_brackets():
 class _Subject:
     """a Series / 2-column frame over given timestamps; rebuilt when a call modified it"""
 
-    def __init__(self, kind, stamps, ids):
-        self.kind, self.stamps, self.ids = kind, stamps, ids
+    def __init__(self, kind, stamps, ids, unit=None):
+        self.kind, self.stamps, self.ids, self.unit = kind, stamps, ids, unit
         self.rebuild()
 
     def rebuild(self):
         idx = pd.DatetimeIndex(self.stamps)
-        if self.kind == 'series':
+        if getattr(self, 'unit', None):
+            idx = idx.as_unit(self.unit)                 # the same instants stored at another resolution (ns / s instead of the default us)
+        if self.kind == 'frame0':
+            self.obj = pd.DataFrame(index=idx)           # rows but NO columns
+            self.rows = [() for _ in self.ids]
+        elif self.kind == 'series':
             self.obj = pd.Series([10.0 + i for i in self.ids], index=idx, dtype=float)
             self.rows = [(10.0 + i,) for i in self.ids]
         else:
@@ -140,7 +145,7 @@ class _Subject:
         o = self.obj
         try:
             return o.index.equals(self.index0) and o.values.shape == self.values0.shape and bool((o.values == self.values0).all()) \
-                and self._dtypes(o) == self.dtypes0 and (self.kind == 'series' or list(o.columns) == ['a', 'b'])
+                and self._dtypes(o) == self.dtypes0 and (self.kind == 'series' or list(o.columns) == (['a', 'b'] if self.kind == 'frame' else []))
         except Exception:
             return False
 
@@ -186,6 +191,9 @@ def gen_slice(N):
             for kind in ('series', 'frame'):
                 yield {'N': N, 'pts': list(pts), 'kind': kind}
             if pts and max(pts) < 4:
+                for unit in ('ns', 's'):
+                    yield {'N': N, 'pts': list(pts), 'kind': 'series', 'unit': unit}          # an index stored in nanoseconds / seconds
+                yield {'N': N, 'pts': list(pts), 'kind': 'frame0'}                            # a frame with rows but no columns
                 for j in range(len(pts)):
                     # a sorted index in which ONE timestamp occurs twice (two observations of one instant): both rows are in or both are out
                     yield {'N': N, 'pts': list(pts[:j + 1]) + list(pts[j:]), 'kind': 'series', 'dup': True}
@@ -197,7 +205,7 @@ def check_slice(case):
     N, pts, kind = case['N'], case['pts'], case['kind']
     stamps = [BASE + i * DAY for i in pts]
     present = set(2 * i + 1 for i in pts)
-    subj = _Subject(kind, stamps, list(range(len(pts))) if case.get('dup') else pts)
+    subj = _Subject(kind, stamps, list(range(len(pts))) if case.get('dup') else pts, case.get('unit'))
     default = _default_brackets()
     spellings = [(oc, oc) for oc in BRACKETS]
     if default in BRACKETS:
@@ -216,7 +224,7 @@ def check_slice(case):
                 label = 'df_slice(%s %s, %s)' % (kind, [str(t)[:10] for t in stamps],
                                                    ('(%s, %s)' % (lb, ub)) if spell == 'tuple' else '%s, %s, %r' % (lb, ub, oc))
                 sig = dict(spell='tuple' if spell == 'tuple' else 'args', oc=oc, kind=kind, lb=_where(lp, present), ub=_where(up, present),
-                           inverted=lp is not None and up is not None and lp > up, empty_index=not pts, dup=bool(case.get('dup')))
+                           inverted=lp is not None and up is not None and lp > up, empty_index=not pts, dup=bool(case.get('dup')), unit=case.get('unit') or 'us')
                 try:
                     res = df_slice(subj.obj, (lb, ub)) if spell == 'tuple' else df_slice(subj.obj, lb, ub, oc)
                     out.call()
